@@ -83,7 +83,7 @@ def check_case(seed, tier, acc, lits):
     text = render.render(mod)
     r = random.Random(seed ^ 0xC17)
     texts = doxy.HOSTILE_TEXT if NONPRINTABLE_OK else doxy.PRINTABLE_ONLY
-    tree, documented = doxy.from_model(mod, r, texts)
+    tree, documented = doxy.from_model(mod, r, texts, flagged=True)   # incl. empty descriptions / defname-only (D27, repaired)
     fault = r.choice(FAULTS)
     root = tempfile.mkdtemp(prefix='verif_c17_')
     vs = []
